@@ -63,7 +63,7 @@ func Stateful() []Table {
 	add("Surm", RainPet, 1, sur, sur2)
 
 	// last letter: no flow and enough evaporation to take a small reach below its dead storage down to exactly empty
-	srL := [][]float64{{0, 0, 0, 0}, {0.5, 0, 0, 0}, {20, 0, 0, 0}, {500, 3, 0, 0}, {20, 0, 10, 0}, {0.5, 0, 0, 8}, {0, 0, 0, 600}}
+	srL := [][]float64{{0, 0, 0, 0}, {0.5, 0, 0, 0}, {20, 0, 0, 0}, {500, 3, 0, 0}, {20, 0, 10, 0}, {0.5, 0, 0, 8}, {0, 0, 0, 600}, {0, 0, 10, 0}} // ... and rain on the reach surface without any flow
 	add("StorageRouting", srL, 2,
 		M{"RoutingConstant": 21600, "RoutingPower": 1, "DeltaT": 86400}, M{"RoutingConstant": 86400, "RoutingPower": 0.8, "DeltaT": 86400, "area": 1e4},
 		M{"RoutingConstant": 172800, "RoutingPower": 0.6, "DeltaT": 86400, "deadStorage": 5e4}, M{"RoutingConstant": 86400, "RoutingPower": 0.8, "DeltaT": 86400, "InflowBias": 0.2},
@@ -82,10 +82,11 @@ func Stateful() []Table {
 		"propBankHeightForFineDep": 0.1, "sedBulkDensity": 1.5, "manningsN": 0.04, "fineSedSettVelocity": 1e-4, "fineSedReMobVelocity": 1e-3, "durationInSeconds": 86400}
 	fine0 := cp(fine, M{"bankFullFlow": 0})
 	fine2 := cp(fine, M{"fineSedSettVelocity": 1e-2, "fineSedReMobVelocity": 0.5, "propBankHeightForFineDep": 0.001})
-	ifL := [][]float64{{0, 0, 0, 0, 0}, {2, 0.5, 0.1, 1e4, 5}, {500, 0, 0, 1e4, 0.5}, {50, 2, 1, 1e6, 120}, {0, 0, 0, 1e4, 30}, {2, 0, 0, 0, 0}, {300, 0, 0, 1e6, 120}, {2, 0.5, 0.1, 0, 5}}
+	ifL := [][]float64{{0, 0, 0, 0, 0}, {2, 0.5, 0.1, 1e4, 5}, {500, 0, 0, 1e4, 0.5}, {50, 2, 1, 1e6, 120}, {0, 0, 0, 1e4, 30}, {2, 0, 0, 0, 0}, {300, 0, 0, 1e6, 120}, {2, 0.5, 0.1, 0, 5}, {50, 2, 1, 1e6, 50}} // the last letter flows exactly at bank-full (50)
 	fine3 := cp(fine, M{"fineSedSettVelocityFlood": 1e-3, "linkSlope": 1e-4, "fineSedSettVelocity": 1e-2})
 	fine4 := cp(fine3, M{"durationInSeconds": 43200}) // a timestep other than a day (floodplain deposition is a daily rate)
-	add("InstreamFineSediment", ifL, 1, fine, fine0, fine2, fine3, fine4)
+	fine5 := cp(fine, M{"floodPlainArea": 0})         // no floodplain
+	add("InstreamFineSediment", ifL, 1, fine, fine0, fine2, fine3, fine4, fine5)
 	add("InstreamCoarseSediment", [][]float64{{0, 0, 0}, {2, 0.5, 0.1}, {50, 0, 3}}, 1, M{"durationInSeconds": 86400}, M{"durationInSeconds": 3600})
 	ipL := [][]float64{{0, 0, 0, 0, 0, 0, 0, 0}, {2, 0.5, 1e4, 5, 0.2, 1, 0.1, 0.2}, {2, 0.5, 1e4, 5, 0, 0, 0, -0.1}, {40, 3, 1e6, 120, 1, 1, 0.6, 0.5}, {2, 1, 0, 0, 0, 1, 0, 0}, {0, 0, 1e4, 5, 0, 0, 0, -0.3}, {2, 0.5, 0, 5, 0.2, 1, 0.1, 0.2}}
 	add("InstreamParticulateNutrient", ipL, 1, M{"particulateNutrientConcentration": 0.002, "soilPercentFine": 35, "durationInSeconds": 86400}, M{"particulateNutrientConcentration": 0, "soilPercentFine": 100, "durationInSeconds": 3600})
